@@ -110,7 +110,7 @@ func (e *Entry) cmd() resp.Cmd {
 	return c
 }
 
-// ---- independent decoders of the stored values (persistence/encoding: 4-byte length prefixed strings)
+// ---- independent decoders of the stored values (persistence/encoding: 2-byte length prefixed strings)
 
 type rd struct {
 	b   []byte
@@ -127,8 +127,8 @@ func (r *rd) n(k int) []byte {
 	return x
 }
 func (r *rd) str() string {
-	l := binary.BigEndian.Uint32(r.n(4))
-	if l > uint32(len(r.b)) {
+	l := binary.BigEndian.Uint16(r.n(2))
+	if int(l) > len(r.b) {
 		r.bad = true
 		return ""
 	}
@@ -868,10 +868,11 @@ func restart(rec *Recorded, pl *Plan) (res *Result) {
 					}
 				}
 				div("sub_missing", sig, c, f, fmt.Sprintf("acknowledged subscription absent after restart; allowed %s; client ids holding subscriptions: %v", ad, keys(actual)))
-			case len(al) == 1 && al[0] == noSub && listed:
-				div("sub_resurrected", "fe:sub_present_after_unsuback", c, f, "UNSUBACK had been read, the subscription is back after restart: "+string(gd))
-			case len(al) == 1 && al[0] == noSub:
-				div("sub_resurrected", "fe:sub_present_never_subscribed_in_session", c, f, "subscription of an earlier session with this client id is back after restart: "+string(gd))
+			case listed && inOpts(noSub, al):
+				// UNSUBACK read (a later SUBSCRIBE of the filter may be in flight): the old value must be gone
+				div("sub_resurrected", "fe:sub_present_after_unsuback", c, f, fmt.Sprintf("UNSUBACK had been read, the subscription is back after restart: %s (allowed %s)", gd, ad))
+			case !listed:
+				div("sub_resurrected", "fe:sub_present_never_subscribed_in_session", c, f, "a subscription this session never made (left behind by an earlier session with this client id) is served after restart: "+string(gd))
 			default:
 				div("sub_options", "fe:sub_options_differ", c, f, fmt.Sprintf("options after restart %s, allowed %s", gd, ad))
 			}
